@@ -177,7 +177,7 @@ def t_labels():
 	from gambit.cli.common import get_sequence_files
 	sh = Shard()
 	dirs = ['', 'd/', 'a.b/c.fasta/', '../x/', '/abs/dir.gz/']
-	stems = ['g', 'a.b', 'sample_1.v2', 'fa', '.hidden', 'UP.FASTA', 'x.fastaX', 'gz', 'n-1', 'with space']
+	stems = ['g', 'a.b', 'sample_1.v2', 'fa', '.hidden', 'UP.FASTA', 'x.fastaX', 'gz', 'n-1', 'with space', 'x.fa', 'y.fna', 'asm.fasta', 'z.gz']      # incl. stacked extensions: only the LAST FASTA extension (after an optional .gz) is the extension
 	exts = ['', '.fasta', '.fna', '.ffn', '.faa', '.frn', '.fa', '.txt', '.fas', '.FA']
 	gzs = ['', '.gz']
 	paths = [d + st + e + g for d in dirs for st in stems for e in exts for g in gzs]
